@@ -12,6 +12,7 @@ import (
 	"math/rand"
 	"os"
 	"runtime"
+	"strings"
 	"sync"
 	"time"
 
@@ -408,6 +409,7 @@ func pairProbe(args []string) {
 	outF := fs.String("out", "", "")
 	shardI := fs.Int("shard", 0, "")
 	shardN := fs.Int("shards", 1, "")
+	kinds := fs.String("kinds", "", "comma separated holder operations (empty = all)")
 	must(fs.Parse(args))
 	tb, err := os.ReadFile(*topoF)
 	must(err)
@@ -455,6 +457,9 @@ func pairProbe(args []string) {
 	}
 	idx := 0
 	for _, h := range holders {
+		if *kinds != "" && !has(strings.Split(*kinds, ","), h.A.str("a")) {
+			continue
+		}
 		for _, o := range others {
 			idx++
 			if idx%*shardN != *shardI {
